@@ -59,6 +59,25 @@ def shape_scenarios(seed):
     add("closed-port", links=[L(1, 2, "closed")], steps=[{"a": "burst", "o": 1, "reqs": [R(1)]}])
     add("blackhole", links=[L(1, 2, "blackhole")], steps=[{"a": "burst", "o": 1, "reqs": [R(1)]}])
     add("no-address", links=[], steps=[{"a": "burst", "o": 1, "reqs": [R(1), R(2, dial=False)]}])
+    # the dial fails at once (no known address), the request is told so - and then the peer becomes reachable or
+    # a dial to it fails by another route: nothing more may happen to the failed request
+    add("no-address-then-peer-dials-us", links=[L(2, 1)], epilogue="kill",
+        steps=[{"a": "burst", "o": 1, "reqs": [R(1), R(2, pol="stall")]}, {"a": "connect", "t": 50, "from": 2, "to": 1},
+               {"a": "burst", "t": 100, "o": 1, "reqs": [R(3, dial=False)]}])
+    add("no-address-then-application-dials", links=[L(1, 2, late=True), L(2, 1)], epilogue="kill",
+        steps=[{"a": "burst", "o": 1, "reqs": [R(1), R(2, rdelay=100)]}, {"a": "connect", "t": 50, "from": 1, "to": 2},
+               {"a": "burst", "t": 100, "o": 1, "reqs": [R(3)]}])
+    add("no-address-then-dial-failure", links=[L(1, 2, "closed", late=True)],
+        steps=[{"a": "burst", "o": 1, "reqs": [R(1), R(2)]}, {"a": "dial", "t": 50, "from": 1, "to": 2}, {"a": "sleep", "t": 600}])
+    add("no-address-then-blackholed-dial-then-request", links=[L(1, 2, "blackhole", late=True)],
+        steps=[{"a": "burst", "o": 1, "reqs": [R(1)]}, {"a": "dial", "t": 20, "from": 1, "to": 2},
+               {"a": "burst", "t": 100, "o": 1, "reqs": [R(2)]}])
+    # requests issued while the application's own dial is being concluded: some meet "already connected" at the
+    # manager before the protocol has processed ConnectionEstablished
+    for gap in (0, 1, 3):
+        add("requests-racing-connection-establishment-%d" % gap, epilogue="kill",
+            steps=[{"a": "dial", "from": 1, "to": 2}] +
+                  [{"a": "burst", "t": gap if i else 2, "o": 1, "reqs": [R(i + 1, rdelay=20 if i % 2 else 0)]} for i in range(8)])
     add("ghost-and-self", nodes=[{}, {}, {"kind": "ghost"}], links=[L(1, 2), L(1, 3, "closed")],
         steps=[{"a": "burst", "o": 1, "reqs": [R(1, to=3), R(2, to=1), R(3, to=2, dial=False)]}])
     # connection limit reached: the manager refuses the dial the transport handle accepted
@@ -226,6 +245,8 @@ def random_scenario(sid, rnd, tr="tcp"):
         if quic and via == "proxy":
             via = "direct"
         lk = L(1, p, via)
+        if rnd.random() < 0.12:
+            lk["late"] = True
         if via == "proxy" and rnd.random() < 0.15:
             lk["cut0_dir"] = rnd.choice(["up", "down"])
             lk["cut0_after"] = rnd.choice([1, 30, 100, 250, 500, 1000, 1500])
@@ -288,6 +309,13 @@ def random_scenario(sid, rnd, tr="tcp"):
         for (oo, kk) in issued:
             if rnd.random() < 0.15:
                 steps.append({"a": "cancel", "t": rnd.choice([0, 0, 1, 5, 20, 100, timeout // 2, timeout + 50]), "o": oo, "k": kk})
+        late = [lk for lk in links if lk.get("late")]
+        if late and rnd.random() < 0.7:
+            lk = rnd.choice(late)
+            if rnd.random() < 0.5 and lk["via"] in ("direct", "proxy"):
+                steps.append({"a": "connect", "t": gap(), "from": lk["to"], "to": 1})
+            else:
+                steps.append({"a": "dial", "t": gap(), "from": 1, "to": lk["to"]})
         if rnd.random() < 0.08 and len(real) > 1:
             steps.append({"a": "kill", "t": gap(), "o": rnd.choice(real[1:])})
         if rnd.random() < 0.08 and len(real) > 1:
